@@ -2,21 +2,24 @@ package drivers
 
 // Registry maps sub-command names to drivers.
 var Registry = map[string]func(args []string){
-	"dispatch": Dispatch,
-	"admission": Admission,
-	"hub": Hub,
-	"geometry": Geometry,
-	"xfer-one": XferOne,
-	"xfer-grid": XferGrid,
-	"xfer-faults": XferFaults,
-	"recv-child": RecvChild,
-	"resume-kill": ResumeKill,
-	"resume-tamper": ResumeTamper,
+	"dispatch":       Dispatch,
+	"admission":      Admission,
+	"hub":            Hub,
+	"geometry":       Geometry,
+	"xfer-one":       XferOne,
+	"xfer-grid":      XferGrid,
+	"xfer-faults":    XferFaults,
+	"recv-child":     RecvChild,
+	"resume-kill":    ResumeKill,
+	"resume-tamper":  ResumeTamper,
 	"resume-observe": ResumeObserve,
-	"resume-states": ResumeStates,
-	"wire-values": WireValues,
+	"resume-states":  ResumeStates,
+	"wire-values":    WireValues,
 	"wire-mutations": WireMutations,
-	"wire-case": WireCase,
-	"paths-jail": PathsJail,
-	"scan-check": ScanCheck,
+	"wire-case":      WireCase,
+	"paths-jail":     PathsJail,
+	"scan-check":     ScanCheck,
+	"routing":        RoutingReplay,
+	"limits":         LimitsCheck,
+	"config-grid":    ConfigGrid,
 }
